@@ -256,6 +256,29 @@ claim("C42", "S2",
       "The wrapped scheduler runs what it is given; the user handler's own behaviour is not constrained.",
       "ast who-passes-what (forwarding) + handler-block analysis")
 
+claim("C36", "S1",
+      "Necessary structural clauses: every clock/timestamp datetime construction in the package carries an explicit UTC "
+      "tz and the naive forms are absent; the three converters go through the one tz-aware epoch constant with mutually "
+      "inverse operations and are the identity on their own target type; Scheduler.now is datetime.now(timezone.utc).",
+      "Exact float round-trips / order preservation are arithmetic facts about datetime and float: NOT decided.",
+      "ast structural checks of datetime constructions and converter branches")
+
+claim("C37", "S1",
+      "Necessary clauses by path typestate and def-use: single-shot sources (value then completion / only completion / "
+      "only error / nothing), range_ argument forwarding and per-step iteration, from_iterable's next-until-StopIteration, "
+      "generate_*: first-step skip, accepted state emitted, completion on rejection, delay never truth-tested, timer "
+      "tick counting, repeat_value / interval delegations.",
+      "Emitted values for concrete arguments are not decided.",
+      "ast path enumeration (typestate) + guard dominance")
+
+claim("C38", "S1",
+      "Necessary clauses of marbles.parse: timestamp-before-increment, frame accounting by consumed length per token "
+      "class, group members at the group's timestamp, stop check before recording, map_element cases, token regex "
+      "alternative order and reserved-character partition (regex AST via re._parser), argument forwarding of hot / "
+      "from_marbles, spaces stripped.",
+      "Parsing of arbitrary strings is not decided; `re` is used only to parse the pattern constant into its AST.",
+      "ast ordering/def-use checks + regex AST inspection")
+
 na("C15", "arithmetic over run-time timestamps (queue ordering by timestamp + duetime, 'exactly d later'); no structural "
           "clause that is both necessary and robust beyond ownership/guarding/falsy rules already decided under "
           "C02/C03/C08/C09, whose scope includes these files")
